@@ -411,10 +411,7 @@ func c20DemuxEnumerate(sh *evidence.Shard) {
 	if env.Shard == 0 {
 		part := sh.Part("demux-bfs", "xstate")
 		ops := c20DemuxOps(pkts, false)
-		depth := 8
-		if env.Thorough() {
-			depth = 10
-		}
+		depth := 10 // the graph closes at depth 7 (48 states); both tiers run to the fixed point
 		part.Alphabet = map[string]any{"ops": c20HistNames(ops), "packets": pnames, "event_buffer": 1}
 		part.Bounds = map[string]any{"max_depth": depth}
 		var probeErr error
@@ -458,7 +455,9 @@ func c20DemuxEnumerate(sh *evidence.Shard) {
 				part.Note("depth bound %d reached before the graph closed", depth)
 			}
 		}
-		if res.Violation == nil && probeErr != nil {
+		if probeErr != nil {
+			// an oracle failure inside the look-ahead is the concrete (replayable) form of whatever
+			// the search reports (typically "history dependence" on the same history)
 			res.Violation, res.History = probeErr, probeHist
 		}
 		if res.Violation != nil {
@@ -468,7 +467,7 @@ func c20DemuxEnumerate(sh *evidence.Shard) {
 	}
 
 	// (2) every operation sequence of length L on a fresh object, without any state merging
-	// (independent of the key argument). Sequences of exactly L cover all shorter ones as prefixes.
+	// (independent of the key argument), shortest first so that a reported history is minimal.
 	part := sh.Part("demux-sequences", "enum")
 	ops := c20DemuxOps(pkts, true)
 	L := 5
@@ -476,14 +475,11 @@ func c20DemuxEnumerate(sh *evidence.Shard) {
 		L = 6
 	}
 	part.Alphabet = map[string]any{"ops": c20HistNames(ops), "event_buffer": 1}
-	part.Bounds = map[string]any{"sequence_length": L, "ops": len(ops)}
-	dims := make([]int, L)
-	for i := range dims {
-		dims[i] = len(ops)
-	}
+	part.Bounds = map[string]any{"max_sequence_length": L, "ops": len(ops)}
 	var item int64
 	viol := 0
-	enum.Product(dims, func(idx []int) bool {
+	seenClause := map[string]bool{}
+	enum.Sequences(len(ops), L, func(idx []int) bool {
 		item++
 		if !env.Mine(item) {
 			return true
@@ -502,7 +498,12 @@ func c20DemuxEnumerate(sh *evidence.Shard) {
 			part.ImplTraces++
 			if err := s.Apply(op); err != nil {
 				names := c20HistNames(s.hist)
-				sh.Violate(part.Name, fmt.Sprintf("demux-sequences/%s/%s", c20ClauseID(err), strings.Join(names, " > ")), err.Error(), c20DemuxReplay{names})
+				// shortest first: report the first (minimal) history per violated clause and shard
+				if id := c20ClauseID(err); !seenClause[id] {
+					seenClause[id] = true
+					sh.Violate(part.Name, fmt.Sprintf("demux-sequences/%s/%s", id, strings.Join(names, " > ")), err.Error(), c20DemuxReplay{names})
+				}
+				part.Count("violating_sequences", 1)
 				viol++
 				break
 			}
@@ -511,7 +512,7 @@ func c20DemuxEnumerate(sh *evidence.Shard) {
 		if part.Evaluations%70001 == 1 {
 			part.Sample(c20HistNames(s.hist))
 		}
-		return viol < 4
+		return viol < 64
 	})
 }
 
